@@ -472,8 +472,14 @@ def tr_create_flags(fn, consts):
                     continue
                 c = tr_expr(st.test, consts, "Bool")
                 stmts(st.body, c if cond is None else f"({cond} && {c})")
-            elif isinstance(st, ast.AugAssign) and ast.unparse(st.target) == "flags" and isinstance(st.op, ast.BitOr):
-                e = tr_expr(st.value, consts, "Nat")
+            elif (isinstance(st, ast.AugAssign) and ast.unparse(st.target) == "flags" and isinstance(st.op, ast.BitOr)) or \
+                    (isinstance(st, ast.Assign) and len(st.targets) == 1 and ast.unparse(st.targets[0]) == "flags"
+                     and isinstance(st.value, ast.BinOp) and isinstance(st.value.op, ast.BitOr)
+                     and "flags" in (ast.unparse(st.value.left), ast.unparse(st.value.right))):
+                # `flags |= x`, `flags = flags | x`, `flags = x | flags`
+                val = st.value if isinstance(st, ast.AugAssign) else \
+                    (st.value.right if ast.unparse(st.value.left) == "flags" else st.value.left)
+                e = tr_expr(val, consts, "Nat")
                 lines.append(f"  let flags := if {cond} then flags ||| {e} else flags" if cond else f"  let flags := flags ||| {e}")
             else:
                 raise Untr("unsupported statement: " + ast.unparse(st)[:60])
